@@ -1,7 +1,7 @@
 (* Props/C05.v — property C05: streaming mode agrees with whole-circuit mode.
    Only statements closed by [exact], each followed by Print Assumptions. *)
 From Coq Require Import NArith ZArith List Bool FMapPositive.
-From Mpc Require Import Gen.Consts Base.Label Circuit.Circuit Circuit.Garble Circuit.GarbleProof Lang.Gc Lang.GcProof Proto.Stream Proto.StreamProof Proto.StreamGcProof.
+From Mpc Require Import Gen.Consts Base.Label Circuit.Circuit Circuit.Garble Circuit.GarbleProof Lang.Gc Lang.GcProof Proto.Stream Proto.StreamProof Proto.StreamGcProof Proto.StreamSimProof.
 Import ListNotations.
 Local Open Scope nat_scope.
 
@@ -95,59 +95,73 @@ Theorem C05_gc_now_is_fixed : gc_now = gc_fixed.
 Proof. exact eq_refl. Qed.
 Print Assumptions C05_gc_now_is_fixed.
 
-(* GC SOUNDNESS, dynamic part — PARTIAL.  Full statement (not closed):
-     forall p steps g, wf_prog p steps = true -> gc_fixed steps = Some g ->
-       no_premature_reuse p g = true
-   (evaluated on every program of every check run: always true).  Proved
-   towards it: the wire allocator's ownership invariant [ginv] (owned id
-   blocks and free-list blocks pairwise disjoint and below nextWireID, every
-   id of a value lies in the block of a still-allocated owner it derives from
-   unless the value derives from a freed one) is preserved by both cases of
-   WireAllocator.AssignedIDs — an already allocated value (including the
-   free-list pop on first use of a program argument) and a new value (block
-   popped from the free list or fresh) and by WireAllocator.GCWires of a
-   non-constant value (its block moves to the free list; every value derived
-   from it becomes "doomed", which is where C05_gc_sound_static is needed).
-   Missing: preservation by the alias rewiring (set_ids: the rewired ids lie in
-   the operands' owners' blocks), the induction along the gc'd list that
-   combines these with C05_gc_sound_static, and the initial state. *)
-Theorem C05_gc_sound_partial_alloc_existing :
-  forall Kt zk ok zero one NC steps0 args w defd gcd v bits e ids w',
-    ginv Kt zk ok zero one NC steps0 args w defd gcd -> lookup v (whash w) = Some e ->
-    (forall b, lookup v args = Some b -> bits = b) ->
-    assigned_ids w v bits = (ids, w') ->
-    ginv Kt zk ok zero one NC steps0 args w' defd gcd /\ ids = ids_of w v /\
-    (forall k, ids_of w' k = ids_of w k) /\
-    (forall k, allocated w' k = allocated w k) /\
-    (forall k e1, lookup k (whash w) = Some e1 -> exists e2, lookup k (whash w') = Some e2 /\ oblock e2 = oblock e1) /\
-    wnext w' = wnext w /\ (forall id, In id (free_ids w') -> In id (free_ids w)).
-Proof. exact aid_existing. Qed.
-Print Assumptions C05_gc_sound_partial_alloc_existing.
+(* GC SOUNDNESS (FULL, about Program.GC and WireAllocator as they are now).
+   For every program description p and every step list that is well-formed
+   (wf_prog: single static assignment with definition before use, last step
+   ret, no native-circuit instruction, distinct keys for arguments / {zero} /
+   {one} / table constants, constant and value keys disjoint, argument operands
+   as wide as the argument, slices fill their result, step circuits well-formed
+   and as wide as their operands and result — evaluated on every generated
+   program of every check run: always true): executing the step list that
+   Program.GC returns through the wire allocator (AssignedIDs, free lists,
+   GCWires, the in-place rewiring of alias results) never makes a circuit step
+   write a wire id that is the zero/one wire or that the id list of any value
+   which is an operand of this or a later step mentions, every non-constant
+   operand is allocated when it is used, and no gc instruction frees an
+   unknown value.  Proof: the ownership invariant [ginv] of the allocator
+   (StreamGcProof.v) along the gc'd list, using C05_gc_sound_static. *)
+Theorem C05_gc_sound :
+  forall (p : sprog) (steps g : list instr),
+    wf_prog p steps = true -> gc_fixed steps = Some g -> no_premature_reuse p g = true.
+Proof. exact gc_sound. Qed.
+Print Assumptions C05_gc_sound.
 
-Theorem C05_gc_sound_partial_alloc_new :
-  forall Kt zk ok zero one NC steps0 args w defd gcd v bits ids w',
-    ginv Kt zk ok zero one NC steps0 args w defd gcd -> lookup v (whash w) = None ->
-    (In v NC -> ~ In v gcd) ->
-    assigned_ids w v bits = (ids, w') ->
-    ginv Kt zk ok zero one NC steps0 args w' (v :: defd) gcd /\ ids_of w' v = ids /\ NoDup ids /\
-    (forall k, k <> v -> ids_of w' k = ids_of w k) /\
-    (forall k, k <> v -> allocated w' k = allocated w k) /\ allocated w' v = true /\
-    (forall k e1, lookup k (whash w) = Some e1 -> lookup k (whash w') = Some e1) /\
-    (forall id, In id ids -> ~ In id (owned_ids Kt (whash w))).
-Proof. exact aid_new. Qed.
-Print Assumptions C05_gc_sound_partial_alloc_new.
+(* What C05_gc_sound is about is what Program.Stream does: for every step and
+   every state (any values on the wires), the wire allocator after the step
+   loop's step [stream_step] is [wstep] of the allocator before it — the
+   function no_premature_reuse runs — and the zero wire id does not change;
+   likewise for whole runs. *)
+Theorem C05_wstep_is_stream_step :
+  forall (circs : list ccirc) (steps : list instr) (idx : nat) (st : sstate),
+    match stream_steps circs idx steps st with
+    | Some st' => wsteps circs (ss_zero st) steps (ss_w st) = Some (ss_w st')
+    | None => wsteps circs (ss_zero st) steps (ss_w st) = None
+    end.
+Proof. exact stream_steps_w. Qed.
+Print Assumptions C05_wstep_is_stream_step.
 
-Theorem C05_gc_sound_partial_gcwires :
-  forall Kt zk ok zero one NC steps0 args,
-    ~ In zk NC -> ~ In ok NC -> (forall k, In k Kt -> ~ In k NC) ->
-    forall w defd gcd u e,
-    ginv Kt zk ok zero one NC steps0 args w defd gcd -> lookup u (whash w) = Some e -> In u NC ->
-    exists w', gc_wires w u = Some w' /\
-               ginv Kt zk ok zero one NC steps0 args w' defd (u :: gcd) /\
-               (forall k, k <> u -> lookup k (whash w') = lookup k (whash w)) /\
-               allocated w' u = false.
-Proof. exact gcw_inv. Qed.
-Print Assumptions C05_gc_sound_partial_gcwires.
+(* The reference meaning of a step list (ssa_eval: every value has its own
+   storage, = Program.Circuit read as an evaluator) ignores gc instructions:
+   for both GC variants, evaluating the list Program.GC returns equals
+   evaluating the original list. *)
+Theorem C05_ssa_ignores_gc :
+  forall (p : sprog) (concat deep : bool) (steps g : list instr) (xy : list bool),
+    forallb not_gc steps = true -> gc_gen concat deep steps = Some g ->
+    ssa_eval p g xy = ssa_eval p steps xy.
+Proof. exact ssa_ignores_gc. Qed.
+Print Assumptions C05_ssa_ignores_gc.
+
+(* WHOLE-RUN SIMULATION — NOT CLOSED.  Full statements (visible, unproved):
+     C05_stream_sim :
+       forall p steps' xy, sim_ok p steps' -> no_premature_reuse p steps' = true ->
+         stream_eval p steps' xy = ssa_eval p steps' xy
+     C05_stream_eq_whole :
+       forall p steps g xy, wf_prog p steps = true -> consts_tabled p steps = true ->
+         gc_fixed steps = Some g -> stream_eval p g xy = ssa_eval p steps xy
+   (consts_tabled — every constant operand in a value position is in
+   prog.Constants — is evaluated on every generated program: it fails only for
+   the offset operand of index instructions, which the index circuit does not
+   read; no streamed value differs on those programs.)
+   Proved ingredients: per circuit step C05_stream_sim_circuit, per alias step
+   C05_stream_sim_alias / C05_stream_sim_operand, C05_gc_sound (the hypothesis
+   no_premature_reuse holds for Program.GC's output), C05_ssa_ignores_gc, and
+   in StreamGcProof.v the allocator facts each step of the induction needs
+   (operand_ids_inv, aid_new, setids_inv, gcw_inv, alias_prov_ok, init_ginv).
+   Missing: the induction along the gc'd list that carries, next to [ginv],
+   the relation "for every value that is still an operand, the bits found on
+   its wire ids equal its bits in the reference environment" through the four
+   kinds of steps, the same relation for the initial state (argument wires,
+   zero/one circuits, constants), and the read-out at ret. *)
 
 (* sendArgument / receiveArgument: for every argument description (name, type
    string, size, nested members to any depth within the fuel) whose lengths
